@@ -96,5 +96,34 @@ __CPROVER_ensures((SB_TAKES(SB_C0, g_m0) && OLD(g_qa.n) == 0 && SUB_FULL_OLD(SB_
 __CPROVER_ensures((SB_TAKES(SB_C0, g_m0) && OLD(g_qa.n) == 0 && SUB_FULL_OLD(SB_C0) && OLD(LMQ_VIEW(&SB_C0->lmq, 0)->m_refcnt.v) > 1) ==> (!__CPROVER_was_freed(OLD(LMQ_VIEW(&SB_C0->lmq, 0))) && OLD(LMQ_VIEW(&SB_C0->lmq, 0))->m_refcnt.v == OLD(LMQ_VIEW(&SB_C0->lmq, 0)->m_refcnt.v) - 1))
 ;
 #endif
+
+/* ---- C15: receive on a context (the socket's own receive is the master context) ----
+ * never waits while a message is queued; waits (nni_aio_start) only when the
+ * queue is empty; the poll flag of the socket mirrors "master queue non-empty". */
+#define SUB_POLL_INV (g_pollr == (g_s->master.lmq.lmq_len > 0))
+#define SR_C   ((sub0_ctx *) arg)
+#define SR_Q   (*(SUB_IS_C0(SR_C) ? &g_qa : &g_qb))
+#define SR_V0  LMQ_VIEW(&SR_C->lmq, 0)
+static void sub0_ctx_recv(void *arg, nni_aio *aio)
+__CPROVER_requires((SUB_IS_C0(SR_C) || (g_nc == 2 && arg == g_c1)) && VP_NO_LOCK_HELD)
+__CPROVER_requires(SUB_LMQ_PRE(&SR_C->lmq) && SR_C->lmq.lmq_cap >= 1)
+/* queued messages are unshared (established by sub0_recv_cb: delivered message has one reference) */
+__CPROVER_requires(SR_C->lmq.lmq_len == 0 || (SUB_QUEUED_MSG(SR_V0) && SR_V0->m_refcnt.v == 1 && CH_GHOST_PRE(&SR_V0->m_body) && HDR_GHOST_PRE(SR_V0)))
+__CPROVER_requires(__CPROVER_is_fresh(aio, sizeof(nni_aio)) && VP_AIOQS_PRE && VP_AIO_NOT_QUEUED(aio) && g_qa.n < 8 && g_qb.n < 8)
+__CPROVER_requires(SUB_IS_C0(SR_C) ==> SUB_POLL_INV)
+__CPROVER_assigns(SR_C->lmq.lmq_len > 0: *SR_V0)
+__CPROVER_frees(SR_C->lmq.lmq_len > 0: SR_V0, SR_V0->m_body.ch_buf)
+__CPROVER_assigns(aio->a_msg, SR_C->lmq.lmq_get, SR_C->lmq.lmq_len, VP_PROTO_GHOST_LIST, VP_SYNC_GHOSTS, g_free_calls, g_alloc_ok, g_alloc_fail)
+__CPROVER_ensures(VP_NO_LOCK_HELD && VP_AIOQS_OK && LMQ_WF_SCALAR(&SR_C->lmq))
+/* empty: the operation cannot proceed => started exactly once; refused => nothing queued; never completed here */
+__CPROVER_ensures(OLD(SR_C->lmq.lmq_len) == 0 ==> (g_start_calls == OLD(g_start_calls) + 1 && g_start_last == aio && g_fin_calls == OLD(g_fin_calls) && SR_C->lmq.lmq_len == 0 && aio->a_msg == OLD(aio->a_msg)))
+__CPROVER_ensures((OLD(SR_C->lmq.lmq_len) == 0 && SUB_IS_C0(SR_C)) ==> (g_qa.n == OLD(g_qa.n) + (g_aio_start_ok ? 1 : 0) && g_qb.n == OLD(g_qb.n)))
+__CPROVER_ensures((OLD(SR_C->lmq.lmq_len) == 0 && !SUB_IS_C0(SR_C)) ==> (g_qb.n == OLD(g_qb.n) + (g_aio_start_ok ? 1 : 0) && g_qa.n == OLD(g_qa.n)))
+/* non-empty: completes in the call with the OLDEST message, without consulting the timeout */
+__CPROVER_ensures(OLD(SR_C->lmq.lmq_len) > 0 ==> (g_start_calls == OLD(g_start_calls) && g_fin_calls == OLD(g_fin_calls) + 1 && g_fin_last == aio && g_fin_last_rv == 0 && g_fin_last_msg == OLD(SR_V0) && g_fin_last_count == OLD(SR_V0)->m_body.ch_len && aio->a_msg == OLD(SR_V0) && SR_C->lmq.lmq_len == OLD(SR_C->lmq.lmq_len) - 1 && g_qa.n == OLD(g_qa.n) && g_qb.n == OLD(g_qb.n)))
+__CPROVER_ensures((OLD(SR_C->lmq.lmq_len) > 0 && g_j < SR_C->lmq.lmq_len && g_j < LMQ_MAXALLOC) ==> LMQ_VIEW(&SR_C->lmq, g_j) == OLD(LMQ_VIEW(&SR_C->lmq, g_j + 1)))
+/* C15: the receive descriptor mirrors the master queue */
+__CPROVER_ensures(SUB_IS_C0(SR_C) ? SUB_POLL_INV : g_pollr == OLD(g_pollr))
+;
 /* clang-format on */
 #endif
